@@ -211,6 +211,15 @@ func c03AttestJobs(e *ctlEnv, m int) {
 	e.s.scheduleAttestations(context.Background(), epoch, []phase0.ValidatorIndex{1, 2, 3}, notCurrent)
 	vnd.Quiesce()
 	e.sched.OnSchedule = nil
+	// the same epoch may be scheduled again while the jobs of the first time are still there
+	// (start-up schedules the next epoch, and so does the half-epoch preparation; a reorg refresh
+	// can race with either): the scheduler refuses the duplicates, and the jobs and marks of the
+	// first time stay as they are
+	if vnd.Bool("epoch-scheduled-a-second-time") {
+		e.s.scheduleAttestations(context.Background(), epoch, []phase0.ValidatorIndex{1, 2, 3}, notCurrent)
+		vnd.Quiesce()
+		vnd.Cover("C03.attest.scheduled-twice")
+	}
 
 	first := uint64(epoch) * e.ct.SPE
 	last := first + e.ct.SPE - 1
@@ -358,12 +367,19 @@ func VerifC14_Aggregate() {
 	// the subscription information of the epoch is stored before the attestation job
 	// starts, or while it is attesting (start-up, half-epoch preparation and reorg
 	// refresh store it from their own goroutines), possibly replacing older information
+	// (stored the way the controller stores it: by subscribing, through subscribeToBeaconCommittees)
 	full := map[phase0.Slot]map[phase0.CommitteeIndex]*beaconcommitteesubscriber.Subscription{slot: infos}
+	subs := &hSubscriber{}
+	e.s.beaconCommitteeSubscriber = subs
+	store := func(info map[phase0.Slot]map[phase0.CommitteeIndex]*beaconcommitteesubscriber.Subscription) {
+		subs.next = info
+		e.s.subscribeToBeaconCommittees(context.Background(), epoch, nil)
+	}
 	switch vnd.Choose("info-stored", 3) {
 	case 0:
-		e.s.subscriptionInfos[epoch] = full
+		store(full)
 	case 1:
-		e.att.onAttest = func() { e.s.subscriptionInfos[epoch] = full }
+		e.att.onAttest = func() { store(full) }
 	case 2:
 		stale := map[phase0.CommitteeIndex]*beaconcommitteesubscriber.Subscription{}
 		for c, si := range infos {
@@ -371,8 +387,13 @@ func VerifC14_Aggregate() {
 			cp.IsAggregator = false
 			stale[c] = &cp
 		}
-		e.s.subscriptionInfos[epoch] = map[phase0.Slot]map[phase0.CommitteeIndex]*beaconcommitteesubscriber.Subscription{slot: stale}
-		e.att.onAttest = func() { e.s.subscriptionInfos[epoch] = full }
+		store(map[phase0.Slot]map[phase0.CommitteeIndex]*beaconcommitteesubscriber.Subscription{slot: stale})
+		// a re-subscription of the same epoch (reorg refresh) before or while the job attests
+		if vnd.Bool("resubscribed-before-the-job-starts") {
+			store(full)
+		} else {
+			e.att.onAttest = func() { store(full) }
+		}
 	}
 	e.att.result = atts
 	aggRec := &hAggregator{}
